@@ -29,6 +29,18 @@ async fn run(mut s: Sim, mut rng: Rng, len: usize) -> Sim {
         let ix = s.pp_configure(&admin, PpSetting::Deposit(d, f)); s.op(tx(vec![ix])).await; }
     if rng.chance(8, 10) { let ix = s.pp_configure(&admin, PpSetting::BackupLimit(rng.range(1, 4) as u16)); s.op(tx(vec![ix])).await; }
     let mut limit_guess = 4usize;
+    if (s.n >> 32) % 4 == 1 {
+        // backup lists up to and beyond the storage bound of the access-mode field (4096 bytes: 123 backup ids fit, 124 do not). Such an
+        // instruction is larger than a network packet; the in-process bank carries it, and the processor must refuse what it cannot store
+        let ix = s.pp_configure(&admin, PpSetting::BackupLimit(200)); s.op(tx(vec![ix])).await;
+        for nb in [122usize, 123, 124, 150] {
+            let backups: Vec<K> = (0..nb).map(|i| K::User(2000 + i as u64)).collect();
+            let mode = s.access_mode(&K::User(300), &svcs[0], 1, Some(&backups));
+            let ix = s.pp_request(&users[3], &svcs[0], &mode); s.op(tx(vec![ix])).await;
+            let ix = s.pp_deny(&sentinel, &svcs[0]); s.op(tx(vec![ix])).await;
+        }
+        let ix = s.pp_configure(&admin, PpSetting::BackupLimit(3)); s.op(tx(vec![ix])).await;
+    }
     let mut pending: Vec<(K, K)> = vec![];   // (service key, payer) of requests believed pending
     for _ in 0..len {
         let mut payer = if rng.chance(1, 7) { sentinel.clone() } else { rng.pick(&users[2..]).clone() };   // incl. sentinel = requester
